@@ -17,7 +17,7 @@ for pid in all_ids:
         "evidence_file": "/verif/evidence/%s.json" % pid,
         "replay_cmd_template": "./check %s --replay {path}" % pid,
         "engine": "contracts",
-        "level_claimed": {"category": c.get("level", "proof"), "text": c["level_text"], "design_ref": c.get("design_ref", "DESIGN.md §4")},
+        "level_claimed": {"category": c.get("level", "proof"), "text": c["level_text"], "design_ref": (c.get("design_ref", "DESIGN.md §4") + " (plan); §11.2 (as built)")},
         "level_note": c["level_note"],
         "technique": c.get("technique", "contract-based deductive verification (Verus on mechanically extracted real functions)"),
     })
@@ -28,10 +28,10 @@ m = {
               "baseline_off_cmd": "cd /repo && cargo test --workspace --no-fail-fast --offline", "source_commits": [], "add_only": True},
     "engines": [
         {"name": "contracts", "path": "/verif/check", "serves_properties": [c["property_id"] for c in checks],
-         "kind_free_text": "Verus 0.2026.09.13 on functions extracted mechanically from /repo/src on every run (vx/extract.py, units/*.rs); Kani 0.68 harnesses (kani/) as labelled bounded stand-ins; native replay crate (replay/) for counterexample search"}],
+         "kind_free_text": "Verus 0.2026.09.13 on functions extracted mechanically from /repo/src on every run (vx/extract.py, units/*.rs); Kani 0.68 harnesses (kani/) and native bounded enumeration of the real crate against executable contract mirrors (replay/, Engine M) as labelled bounded stand-ins, never counted as proved; the replay crate also supplies concrete counterexamples for failed Verus obligations"}],
     "checks": checks,
     "not_applicable": [{"property_id": k, "reason": v} for k, v in na.items() if k not in props],
-    "notes": "Exit 2 = UNDECIDED (lost anchor, front-end error, resource limit, vacuity probe anomaly): never an alarm. See DESIGN.md.",
+    "notes": "Exit 0 = every obligation discharged / every bounded stand-in passed on what was explored (a `note:` line and coverage.bounded_only_items name items that could only be decided by their bounded stand-in on this run). Exit 1 = VIOLATION line(s). Exit 2 = UNDECIDED (unstable proof, front-end error or lost item that no stand-in covers, resource limit, vacuity-probe anomaly): never an alarm. KNOWN-FINDING lines: known_findings.json. See DESIGN.md sections 2, 11-14.",
 }
 missing = [p for p in all_ids if p not in props and p not in na]
 assert not missing, missing
